@@ -37,7 +37,7 @@ class Boom(Exception):
 
 
 # ====================================================================================== WSGI event stream on threads
-def run_wsgi_sse(prefix, n_items, raise_at, consume, line_points, max_timeouts, empty_at=None, cleanup_raises=False, streams=1, shared=False, saturated=False, hold=0.0):
+def run_wsgi_sse(prefix, n_items, raise_at, consume, line_points, max_timeouts, empty_at=None, cleanup_raises=False, streams=1, shared=False, saturated=False, hold=0.0, event_of=None, trace_builder=False):
     """One execution of `streams` WSGI event-stream responses (each with its own server thread and producer) under the baton
     scheduler. The library's own ThreadPoolExecutor subclass stays in the loop: only the base class's submit() is redirected
     to the controlled-thread pool, so baize's submit() wrapper (context copy) runs for real."""
@@ -53,7 +53,7 @@ def run_wsgi_sse(prefix, n_items, raise_at, consume, line_points, max_timeouts, 
     VT.set_current(S)
     all_obs = [{"enter": 0, "exit": 0, "yielded": [], "got": [], "closed_ret": False, "server_exc": None, "start_calls": 0} for _ in range(streams)]
 
-    def make_gen(obs):
+    def make_gen(obs, k=0):
         def gen():
             obs["enter"] += 1
             try:
@@ -62,7 +62,7 @@ def run_wsgi_sse(prefix, n_items, raise_at, consume, line_points, max_timeouts, 
                     if raise_at == i:
                         raise Boom(i)
                     obs["yielded"].append(i)
-                    yield ({} if i == empty_at else {"data": str(i)})  # an empty event dictionary is falsy
+                    yield ({} if i == empty_at else (event_of(k, i) if event_of else {"data": str(i)}))  # an empty event dictionary is falsy
                 S.point("gen-end")
                 if raise_at == n_items:
                     raise Boom("end")
@@ -72,7 +72,7 @@ def run_wsgi_sse(prefix, n_items, raise_at, consume, line_points, max_timeouts, 
                     raise Boom("cleanup")
         return gen()
 
-    gens = [make_gen(o) for o in all_obs]
+    gens = [make_gen(o, k) for k, o in enumerate(all_obs)]
 
     class Source:
         """A source that can be iterated more than once (one response object serving several requests)."""
@@ -98,6 +98,8 @@ def run_wsgi_sse(prefix, n_items, raise_at, consume, line_points, max_timeouts, 
     WR.SendEventResponse.thread_pool = pool
     if line_points:
         S.trace_code(WR.SendEventResponse.render_stream)
+    if trace_builder:
+        S.trace_code(WR.build_bytes_from_sse)  # the serialiser runs in each server's own thread
 
     def make_server(obs, g):
         def server():
